@@ -72,11 +72,14 @@ func LoadPlan(path string) (*Plan, error) {
 		case "bounded":
 			p.Bounded = append(p.Bounded, rest)
 		case "replay":
+			// replay <obligation-name prefix (may contain spaces)> <template file>
 			fs := strings.Fields(rest)
-			if len(fs) != 2 {
+			if len(fs) < 2 {
 				return nil, fmt.Errorf("%s: bad replay line %q", path, line)
 			}
-			p.Replays = append(p.Replays, ReplaySpec{fs[0], fs[1]})
+			tmpl := fs[len(fs)-1]
+			prefix := strings.TrimSpace(strings.TrimSuffix(strings.TrimSpace(rest), tmpl))
+			p.Replays = append(p.Replays, ReplaySpec{prefix, tmpl})
 		default:
 			return nil, fmt.Errorf("%s: unknown keyword %q", path, kw)
 		}
